@@ -36,7 +36,7 @@
    (default expiry 0) and e = -1 (NoExpiration) never expire.
 
    Ghost components (they never influence a transition): the logical time
-   [s_time] (number of steps taken), the stamps s_started / s_began / s_doneat,
+   [s_time] (number of steps taken), the stamps s_started / s_began / s_endat / s_doneat,
    the source of a cache entry and of a returned result.
    No proofs in this file. *)
 
@@ -69,13 +69,14 @@ Record state := mkState {
   s_time : nat;
   s_started : tid -> nat;                     (* when the thread called Memoize *)
   s_began : tid -> nat;                       (* when the execution led by tid began *)
+  s_endat : tid -> nat;                       (* when fn returned in the execution led by tid *)
   s_doneat : tid -> option nat;               (* when it was removed from the group *)
   s_res : tid -> option result                (* what fn returned in the execution led by tid *)
 }.
 
 Definition init (def : Z) : state :=
   mkState def (fun _ => None) (fun _ => None) (fun _ => None) (fun _ => Idle) (fun _ => 0%nat)
-          0 (fun _ => 0%nat) (fun _ => 0%nat) (fun _ => None) (fun _ => None).
+          0 (fun _ => 0%nat) (fun _ => 0%nat) (fun _ => 0%nat) (fun _ => None) (fun _ => None).
 
 Definition updZ {A} (f : Z -> A) (k : Z) (a : A) : Z -> A := fun x => if x =? k then a else f x.
 Definition updN {A} (f : nat -> A) (t : nat) (a : A) : nat -> A := fun x => if Nat.eqb x t then a else f x.
@@ -114,7 +115,7 @@ Definition step (s : state) (a : label) : option state :=
               | None => Looked k
               end in
           Some (mkState (s_def s) (s_cache s) (s_group s) (s_done s) (updN (s_thr s) t thr') (s_calls s)
-                        (tick s) (updN (s_started s) t (s_time s)) (s_began s) (s_doneat s) (s_res s))
+                        (tick s) (updN (s_started s) t (s_time s)) (s_began s) (s_endat s) (s_doneat s) (s_res s))
       | _ => None
       end
   | LEnter t =>
@@ -123,11 +124,11 @@ Definition step (s : state) (a : label) : option state :=
           match s_group s k with
           | Some l =>
               Some (mkState (s_def s) (s_cache s) (s_group s) (s_done s) (updN (s_thr s) t (Joined k l))
-                            (s_calls s) (tick s) (s_started s) (s_began s) (s_doneat s) (s_res s))
+                            (s_calls s) (tick s) (s_started s) (s_began s) (s_endat s) (s_doneat s) (s_res s))
           | None =>
               Some (mkState (s_def s) (s_cache s) (updZ (s_group s) k (Some t)) (s_done s)
                             (updN (s_thr s) t (Leading k)) (updZ (s_calls s) k (S (s_calls s k)))
-                            (tick s) (s_started s) (updN (s_began s) t (s_time s)) (s_doneat s) (s_res s))
+                            (tick s) (s_started s) (updN (s_began s) t (s_time s)) (s_endat s) (s_doneat s) (s_res s))
           end
       | _ => None
       end
@@ -146,8 +147,8 @@ Definition step (s : state) (a : label) : option state :=
               | RErr _ => s_cache s
               end in
           Some (mkState (s_def s) cache' (s_group s) (s_done s) (updN (s_thr s) t (Finishing k r))
-                        (s_calls s) (tick s) (s_started s) (s_began s) (s_doneat s)
-                        (updN (s_res s) t (Some r)))
+                        (s_calls s) (tick s) (s_started s) (s_began s)
+                        (updN (s_endat s) t (s_time s)) (s_doneat s) (updN (s_res s) t (Some r)))
       | _ => None
       end
   | LDone t =>
@@ -155,7 +156,7 @@ Definition step (s : state) (a : label) : option state :=
       | Finishing k r =>
           Some (mkState (s_def s) (s_cache s) (updZ (s_group s) k None) (updN (s_done s) t (Some r))
                         (updN (s_thr s) t (Ret k r t false)) (s_calls s)
-                        (tick s) (s_started s) (s_began s) (updN (s_doneat s) t (Some (s_time s))) (s_res s))
+                        (tick s) (s_started s) (s_began s) (s_endat s) (updN (s_doneat s) t (Some (s_time s))) (s_res s))
       | _ => None
       end
   | LWake t =>
@@ -165,7 +166,7 @@ Definition step (s : state) (a : label) : option state :=
           | Some r =>
               Some (mkState (s_def s) (s_cache s) (s_group s) (s_done s)
                             (updN (s_thr s) t (Ret k r l false)) (s_calls s)
-                            (tick s) (s_started s) (s_began s) (s_doneat s) (s_res s))
+                            (tick s) (s_started s) (s_began s) (s_endat s) (s_doneat s) (s_res s))
           | None => None
           end
       | _ => None
